@@ -121,6 +121,15 @@ func (g *gen) one(x exchange) {
 	o := g.w.do(x)
 	r := g.r
 	s := x.S
+	if s.DropFirst {
+		if o.Fatal != "" && o.Attempts < 2 {
+			// the connection was not a reused one, the transport may not retry: precondition of the
+			// cell not met (counted), nothing to judge
+			r.Count("retry.precondition-not-met")
+			return
+		}
+		r.Count(fmt.Sprintf("retry.attempts=%d", o.Attempts))
+	}
 	r.Count("stack=" + x.Stack)
 	r.Count("cfg=" + x.Cfg.name())
 	r.Count("req=" + x.Req.name())
@@ -355,5 +364,9 @@ func (g *gen) run() {
 	g.runExtra()
 	// I. concurrent readers
 	g.runConcurrent()
+	// J. bodies ending short of their declared length
+	g.runShort()
+	// K. one request, several attempts
+	g.runAttempts()
 	g.flushSeq(len(g.seqCases))
 }
